@@ -1,10 +1,17 @@
 #!/usr/bin/env python3
-"""Runs the registered quick checks against every confirmed seeded change:
-apply the patch to /repo (git apply), run the check(s), undo (git checkout -- .).
-usage: run_seeded.py [ids...]   (default: all under /verif/seeded)
-       run_seeded.py --all-props ids...  (run every claimed property's check, not just the seed's own)
-Writes /verif/seeded/RESULTS.json and prints a table."""
-import json, os, subprocess, sys
+"""Runs the registered checks against every confirmed seeded change.
+
+Default mode (as the task describes): apply the patch to /repo (git apply), run
+the quick check(s), undo (git checkout -- .).
+
+--scratch: do the same in a throw-away worktree of /repo under /tmp (removed at
+the end) with the checker's -repo/-verif flags, all properties in parallel, so
+that /repo and /verif/evidence stay untouched while it runs.
+
+usage: run_seeded.py [--all-props] [--scratch] [ids...]
+Writes /verif/seeded/RESULTS.json (merged) and prints a table."""
+import json, os, shutil, subprocess, sys
+from concurrent.futures import ThreadPoolExecutor
 
 def sh(cmd, cwd=None):
     p = subprocess.run(cmd, shell=True, cwd=cwd, stdout=subprocess.PIPE, stderr=subprocess.STDOUT, text=True)
@@ -12,46 +19,71 @@ def sh(cmd, cwd=None):
 
 def main():
     args = sys.argv[1:]
-    allprops = False
-    if args and args[0] == "--all-props":
-        allprops = True
-        args = args[1:]
+    allprops = "--all-props" in args
+    scratch = "--scratch" in args
+    args = [a for a in args if not a.startswith("--")]
     ids = args or sorted(d for d in os.listdir("/verif/seeded") if os.path.isdir("/verif/seeded/" + d))
     man = json.load(open("/verif/MANIFEST.json"))
     claimed = {c["property_id"]: c for c in man["checks"]}
-    rc, out = sh("git -C /repo status --porcelain")
-    if out.strip():
-        raise SystemExit("/repo is not clean:\n" + out)
+    repo = "/repo"
+    vroot = "/verif"
+    if scratch:
+        repo = "/tmp/seedrun_repo"
+        vroot = "/tmp/seedrun_verif"
+        sh(f"git -C /repo worktree remove --force {repo}")
+        shutil.rmtree(repo, ignore_errors=True)
+        shutil.rmtree(vroot, ignore_errors=True)
+        rc, out = sh(f"git -C /repo worktree add -q --detach {repo} HEAD")
+        if rc != 0:
+            raise SystemExit(out)
+        os.makedirs(vroot + "/evidence")
+        shutil.copy("/verif/known_findings.json", vroot + "/known_findings.json")
+    else:
+        rc, out = sh("git -C /repo status --porcelain")
+        if out.strip():
+            raise SystemExit("/repo is not clean:\n" + out)
     results = {}
     if os.path.exists("/verif/seeded/RESULTS.json"):
         results = json.load(open("/verif/seeded/RESULTS.json"))
-    for sid in ids:
-        prop = sid.split("-")[0]
-        patch = f"/verif/seeded/{sid}/patch.diff"
-        rc, out = sh(f"git -C /repo apply {patch}")
-        if rc != 0:
-            print(f"{sid}: patch no longer applies: {out.strip()[:200]}")
-            results[sid] = {"applies": False}
-            continue
-        try:
-            props = sorted(claimed) if allprops else ([prop] if prop in claimed else [])
-            det = {}
-            for p in props:
-                rc, out = sh(claimed[p]["quick_cmd"], cwd="/verif")
-                lines = [l for l in out.splitlines() if l.startswith(("VIOLATED", "UNDECIDED"))]
-                det[p] = {"exit": rc, "reports": [l[:260] for l in lines[:6]]}
-            results[sid] = {"applies": True, "checks": det}
-            own = det.get(prop)
-            caught_by = [p for p, d in det.items() if d["exit"] != 0]
-            print(f"{sid}: own-check={'n/a' if own is None else ('CAUGHT' if own['exit'] else 'missed')} caught_by={caught_by}")
-            for p in caught_by:
-                for l in det[p]["reports"][:3]:
-                    print("     ", l[:200])
-        finally:
-            sh("git -C /repo checkout -- .")
+    try:
+        for sid in ids:
+            prop = sid.split("-")[0]
+            patch = f"/verif/seeded/{sid}/patch.diff"
+            rc, out = sh(f"git -C {repo} apply {patch}")
+            if rc != 0:
+                print(f"{sid}: patch no longer applies: {out.strip()[:200]}")
+                results[sid] = {"applies": False}
+                continue
+            try:
+                props = sorted(claimed) if allprops else ([prop] if prop in claimed else [])
+                def run(p):
+                    if scratch:
+                        cmd = f"/verif/bin/dialscheck -prop {p} -tier quick -repo {repo} -verif {vroot}"
+                    else:
+                        cmd = claimed[p]["quick_cmd"]
+                    rc, out = sh(cmd, cwd="/verif")
+                    lines = [l for l in out.splitlines() if l.startswith(("VIOLATED", "UNDECIDED"))]
+                    return p, {"exit": rc, "reports": [l[:260] for l in lines[:6]]}
+                with ThreadPoolExecutor(max_workers=8 if scratch else 1) as ex:
+                    det = dict(ex.map(run, props))
+                results[sid] = {"applies": True, "checks": det}
+                own = det.get(prop)
+                caught_by = [p for p, d in det.items() if d["exit"] != 0]
+                print(f"{sid}: own-check={'n/a' if own is None else ('CAUGHT' if own['exit'] else 'missed')} caught_by={caught_by}", flush=True)
+                for p in ([prop] if own and own["exit"] else caught_by[:1]):
+                    for l in det[p]["reports"][:2]:
+                        print("     ", l[:200])
+            finally:
+                sh(f"git -C {repo} checkout -- .")
+    finally:
+        if scratch:
+            sh(f"git -C /repo worktree remove --force {repo}")
+            shutil.rmtree(repo, ignore_errors=True)
+            shutil.rmtree(vroot, ignore_errors=True)
     json.dump(results, open("/verif/seeded/RESULTS.json", "w"), indent=1, sort_keys=True)
-    # evidence files were rewritten by runs on mutated trees: regenerate on the clean tree
-    for p in sorted(claimed):
-        sh(claimed[p]["quick_cmd"], cwd="/verif")
+    if not scratch:
+        # evidence files were rewritten by runs on mutated trees: regenerate on the clean tree
+        for p in sorted(claimed):
+            sh(claimed[p]["quick_cmd"], cwd="/verif")
 
 main()
